@@ -361,3 +361,19 @@ Definition y_convert (kto : rkind) (v : value) : res value :=
   | VInt kf z => store SConv kto (if signed kf then MI z else MU z)
   | _ => Bad
   end.
+
+(* ------------------------------------------------------------------ typecheck.convertConst *)
+
+(** how an untyped constant is materialised at a basic kind: float32 and the parts of complex64
+    through constant.Float32Val (ONE rounding of the exact value), float64 / complex128 through
+    constant.Float64Val.  Semantics of the float cases: Num/ConstRound.v [y_const_float]. *)
+Definition model_convertconst_cases : list (list rkind * string) := [
+  ([KBool], "v = reflect.ValueOf(constant.BoolVal(c))");
+  ([KString], "v = reflect.ValueOf(constant.StringVal(c))");
+  (ints, "i, _ := constant.Int64Val(constant.ToInt(c)); v = reflect.ValueOf(i).Convert(t)");
+  (uints, "i, _ := constant.Uint64Val(constant.ToInt(c)); v = reflect.ValueOf(i).Convert(t)");
+  ([KFloat32], "f, _ := constant.Float32Val(constant.ToFloat(c)); v = reflect.ValueOf(f)");
+  ([KFloat64], "f, _ := constant.Float64Val(constant.ToFloat(c)); v = reflect.ValueOf(f)");
+  ([KComplex64], "r, _ := constant.Float32Val(constant.Real(c)); i, _ := constant.Float32Val(constant.Imag(c)); v = reflect.ValueOf(complex(r, i)).Convert(t)");
+  ([KComplex128], "r, _ := constant.Float64Val(constant.Real(c)); i, _ := constant.Float64Val(constant.Imag(c)); v = reflect.ValueOf(complex(r, i)).Convert(t)")
+].
